@@ -124,6 +124,12 @@ MECH_EXTRA = [
     ("PermuteAndFlip", "steep", lambda rs: M.PermuteAndFlip(epsilon=0.2, sensitivity=1, utility=[0.0] * 4 + [-50.0] * 60,
                                                             random_state=rs),
      lambda m: [m.randomise() for _ in range(128)]),
+    # long candidate lists (a size-dependent code path — e.g. a vectorised visiting order — must still draw from `_rng`): equal
+    # utilities, so the first visited candidate is accepted and the selection IS the visiting order (seeded change C14-14)
+    ("PermuteAndFlip", "long:200-equal", lambda rs: M.PermuteAndFlip(epsilon=0.5, sensitivity=1, utility=[0.0] * 200, random_state=rs),
+     lambda m: [m.randomise() for _ in range(16)]),
+    ("Exponential", "long:300", lambda rs: M.Exponential(epsilon=0.5, sensitivity=1, utility=[0.0] * 300, random_state=rs),
+     lambda m: [m.randomise() for _ in range(16)]),
     ("Geometric", "tiny-epsilon", lambda rs: M.Geometric(epsilon=1e-6, sensitivity=1, random_state=rs),
      lambda m: [m.randomise(0) for _ in range(8)]),
     ("Snapping", "tiny-sensitivity", lambda rs: M.Snapping(epsilon=1.0, sensitivity=1e-6, lower=-1.0, upper=1.0, random_state=rs),
@@ -257,11 +263,15 @@ TOOLS = {
     "nansum": [("axis0", _tool("nansum")),
                ("int", lambda rs: repeat_cells(lambda: T.nansum(data()["Xi"][:, :6], epsilon=0.5, bounds=(0, 10), axis=0,
                                                                 dtype=int, random_state=rs, accountant=acc()), 10))],
+    # `weights:` = the rarely used `weights=` keyword (a separate noise branch must still go through a mechanism; seeded C14-15)
     "histogram": [("big:2^15-bins", lambda rs: chunks(T.histogram(_x3()[:, 0], epsilon=0.05, bins=2 ** 15, range=(0.0, 1.0),
                                                                   random_state=rs, accountant=acc())[0])),
                   ("8bins", lambda rs: repeat_cells(lambda: T.histogram(
-        data()["X"][:, 0], epsilon=0.05, bins=8, range=(0.0, 1.0), random_state=rs, accountant=acc())[0], 8))],
-    "histogramdd": [("big:26x26x26", lambda rs: chunks(T.histogramdd(_x3(), epsilon=0.05, bins=26, range=[(0.0, 1.0)] * 3,
+        data()["X"][:, 0], epsilon=0.05, bins=8, range=(0.0, 1.0), random_state=rs, accountant=acc())[0], 8)),
+                  ("weights:8bins", lambda rs: repeat_cells(lambda: T.histogram(
+        data()["X"][:, 0], epsilon=0.05, bins=8, range=(0.0, 1.0), weights=np.linspace(0.5, 1.5, data()["X"].shape[0]),
+        random_state=rs, accountant=acc())[0], 8))],
+        "histogramdd": [("big:26x26x26", lambda rs: chunks(T.histogramdd(_x3(), epsilon=0.05, bins=26, range=[(0.0, 1.0)] * 3,
                                                                      random_state=rs, accountant=acc())[0])),
                     ("big:130x130", lambda rs: chunks(T.histogramdd(_x3()[:, :2], epsilon=0.05, bins=130,
                                                                     range=[(0.0, 1.0)] * 2, random_state=rs,
